@@ -39,6 +39,9 @@ type c16Case struct {
 	// loopback route is not there (it appears later, or goes away and comes back); the
 	// deadline of a deprecated wildcard stanza does not depend on when a network was seen.
 	AbsentAt *int `json:"network_absent_at_build,omitempty"`
+	// Group: the stanza belongs to an [[interfaces]] block with names = [eth0, eth1, eth2];
+	// the plugin of the LAST interface of the group is the one judged.
+	Group bool `json:"names_group,omitempty"`
 }
 
 var c16Epochs = []time.Time{
@@ -67,6 +70,9 @@ func c16Instants(l c16Life) []time.Duration {
 func c16Doc(c c16Case) ref.Doc {
 	l := c16Lifes[c.Life]
 	ifi := ref.Iface{Scalars: ref.Table{"name": "eth0", "advertise": true}}
+	if c.Group {
+		ifi.Scalars = ref.Table{"names": []string{"eth0", "eth1", "eth2"}, "advertise": true}
+	}
 	switch c.Kind {
 	case "prefix", "prefix-auto":
 		t := ref.Table{"valid_lifetime": l.Valid.String(), "preferred_lifetime": l.Pref.String(), "deprecated": c.Dep}
@@ -135,7 +141,14 @@ func c16Check(c c16Case) [][2]string {
 	srcFails := func() bool { return c.FailAt != nil && *c.FailAt == build }
 	absent := func() bool { return c.AbsentAt != nil && *c.AbsentAt == build }
 	var plug plugin.Plugin
-	for _, p := range cfg.Interfaces[0].Plugins {
+	judged := cfg.Interfaces[0]
+	if c.Group {
+		if len(cfg.Interfaces) != 3 {
+			return [][2]string{{"C16:group", fmt.Sprintf("names group of 3 gave %d interfaces", len(cfg.Interfaces))}}
+		}
+		judged = cfg.Interfaces[2]
+	}
+	for _, p := range judged.Plugins {
 		switch p := p.(type) {
 		case *plugin.Prefix:
 			p.TimeNow = clock
@@ -260,7 +273,7 @@ func c16Check(c c16Case) [][2]string {
 func TestVerifC16(t *testing.T) {
 	r := ev.Begin("C16", "enum")
 	defer r.End(t)
-	r.Rule = "cases = 2 epochs x 4 (valid,preferred) pairs x {static prefix, wildcard prefix, static route, wildcard route} x {deprecated, not} x all non-decreasing sequences (length<=L) over 10 instants around each deadline (before the epoch, at, 1ns before/after; also preceded by a reading of the zero time.Time, centuries before the epoch) x {one, two} clock readings per RA x (wildcards) the address / route source failing during build k, and the network being absent from the listing during build k (it appears later / comes back), for every k; documents parsed by the real config.Parse; non-trivial = deprecated and some reading within [0, 10*valid]; distinct = distinct case"
+	r.Rule = "cases = 2 epochs x 4 (valid,preferred) pairs x {static prefix, wildcard prefix, static route, wildcard route} x {deprecated, not} x all non-decreasing sequences (length<=L) over 10 instants around each deadline (before the epoch, at, 1ns before/after; also preceded by a reading of the zero time.Time, centuries before the epoch) x {one, two} clock readings per RA x (wildcards) the address / route source failing during build k, and the network being absent from the listing during build k (it appears later / comes back), for every k; documents parsed by the real config.Parse (the stanza on a single interface and, for sequences <=2, in a names group of three, judged on the last member); non-trivial = deprecated and some reading within [0, 10*valid]; distinct = distinct case"
 	r.Assumptions = []string{"clock injected through Prefix.TimeNow / Route.TimeNow (Prepare installs time.Now in production)"}
 
 	if r.Replay != nil {
@@ -296,6 +309,14 @@ func TestVerifC16(t *testing.T) {
 						var offs []string
 						for _, s := range seq {
 							offs = append(offs, inst[s].String())
+						}
+						if len(seq) <= 2 {
+							// ... and the same stanza in a names group of three, on its last interface.
+							c := c16Case{Epoch: e, Life: li, Kind: kind, Dep: dep, Offsets: offs, PerApply: 1, Group: true}
+							r.Case(ev.JSON(c), dep)
+							for _, v := range c16Check(c) {
+								r.Violation(v[0], v[1], c)
+							}
 						}
 						if dep && len(seq) <= 2 {
 							// ... and the same readings after one taken from a clock that was not set yet.
